@@ -122,6 +122,9 @@ func main() {
 	case "minigo":
 		cfg.Slices, cfg.Maps, cfg.Structs, cfg.Strings, cfg.Methods, cfg.Widths, cfg.Consts, cfg.MultiRes = false, false, false, false, false, false, false, false
 		cfg.Loops, cfg.NoBlocks, cfg.NoCompl, cfg.NoCalls = false, true, true, true
+	case "minigo-neg":
+		cfg.Slices, cfg.Maps, cfg.Structs, cfg.Strings, cfg.Methods, cfg.Widths, cfg.Consts, cfg.MultiRes = false, false, false, false, false, false, false, false
+		cfg.Loops, cfg.NoBlocks, cfg.NoCompl, cfg.NoCalls, cfg.Neg = false, true, true, true, true
 	case "inject":
 		cfg.Inject = true
 		cfg.NoCalls = true
@@ -160,7 +163,8 @@ func main() {
 		cases = catalogueCases(mod, *only)
 		*n = 0
 	}
-	lenient := catalogue || *profile == "inject" // declarations may be rejected
+	lenient := catalogue || *profile == "inject" || *profile == "minigo-neg" // declarations may be rejected
+	minigo := *profile == "minigo" || *profile == "minigo-neg"
 	var runner strings.Builder
 	runner.WriteString("package main\n\nimport (\n\t\"fmt\"\n")
 	for c := 0; c < *n; c++ {
@@ -335,7 +339,7 @@ func main() {
 				fmt.Sscanf(m[1], "%d", &i)
 				c.model[i] = m[2]
 			}
-			if *profile == "minigo" {
+			if minigo {
 				c.minigo(coqflags, out)
 			}
 		}()
@@ -446,7 +450,12 @@ func (c *caseT) minigo(coqflags []string, out string) {
 		}
 		fns = append(fns, f.Name)
 		fmt.Fprintf(&b, "Definition A_%s : gfunc := %s.\n", f.Name, t)
-		fmt.Fprintf(&b, "Eval vm_compute in \"MARK %s\".\nGoal tr_func A_%s = Some %s. Proof. vm_compute. reflexivity. Qed.\n", f.Name, f.Name, f.Name)
+		if c.defs[f.Name] {
+			fmt.Fprintf(&b, "Eval vm_compute in \"MARK %s\".\nGoal tr_func A_%s = Some %s. Proof. vm_compute. reflexivity. Qed.\n", f.Name, f.Name, f.Name)
+		} else {
+			// goose rejected the function: so must the model
+			fmt.Fprintf(&b, "Eval vm_compute in \"MARK %s\".\nGoal tr_func A_%s = None. Proof. vm_compute. reflexivity. Qed.\n", f.Name, f.Name)
+		}
 	}
 	inFrag := map[string]bool{}
 	for _, f := range fns {
